@@ -418,6 +418,8 @@ class Monitors:
                 self.probe('reference_model_json_combined_features_in_graph')
         if 'C06' in self.oracles:
             self.check_pairs(cols, trip, args)
+        if 'C05' in self.oracles and frame is not None:
+            self.check_combined_columns(cols, frame)
         if 'C05' in self.oracles and frame is not None and heuristic in MI_HEURISTICS and float(getattr(args, 'mi_stratified_sampling_ratio', 1.0)) >= 1.0 \
                 and (not args.reference_model_JSON or heuristic in REFJSON_HEURISTICS):
             coded = {}
@@ -460,6 +462,33 @@ class Monitors:
                 fin_got = [g for g in got_scores if not math.isnan(g)]
                 if fin_ref and max(fin_ref) - min(fin_ref) > 1e-3 and fin_got and max(fin_got) - min(fin_got) == 0:
                     self.violate('C05', 'degraded-to-constant', {'heuristic': heuristic, 'emitted': fin_got[0], 'reference_range': [min(fin_ref), max(fin_ref)]})
+
+    def check_combined_columns(self, cols, frame):
+        """A row that names 'p AND q' is read as a score of the joint column: the constructed column that entered the rank graph
+        must partition the rows like the joint values of its parts (either as value tuples or as the repository's separator-less
+        concatenation - both accepted, so that the oracle does not depend on how joint values are fingerprinted)."""
+        header = set(self.wl['header'])
+        if any(' AND ' in h for h in header):
+            self.probe('combined_column_check_skipped_marker_in_header')
+            return
+        for c in cols:
+            if c in header or ' AND ' not in c:
+                continue
+            parts = c.split(' AND ')
+            if not all(p in header and p in frame for p in parts):
+                continue
+            got = frame[c]
+            tuples = list(zip(*[[str(v) for v in frame[p]] for p in parts]))
+            concat = [''.join(t) for t in tuples]
+
+            def same_partition(x, y):
+                return len(set(zip(x, y))) == len(set(x)) == len(set(y))
+            self.probe('combined_columns_checked')
+            if not (same_partition(got, tuples) or same_partition(got, concat)):
+                self.violate('C05', 'combined-feature-content', {'column': c, 'parts': parts, 'distinct_in_column': len(set(got)),
+                                                                 'distinct_joint_values': len(set(tuples)), 'rows': len(got),
+                                                                 'first_rows': [list(t) for t in tuples[:8]]})
+                return
 
     def check_pairs(self, cols, trip, args):
         label = args.label_column
